@@ -640,3 +640,6 @@ H("sendbuf_poll_transmit_retransmit_native", ["C01"], "replay-only", "connection
   ["SendBuffer::poll_transmit"], "native replay body of E2 query e2_sendbuf_poll_transmit")
 H("endpoint_stateless_reset_native", ["C03", "C07"], "replay-only", "endpoint::stateless_reset_native",
   [("inciting_len", "u16")], 4, [], ["Endpoint::stateless_reset"], "native replay body of E2 query e2_stateless_reset")
+H("token_from_header_native", ["C14"], "replay-only", "token::from_header_native",
+  [("retry", "bool"), ("same_ip", "bool"), ("same_port", "bool"), ("age", "u16"), ("lifetime", "u16"), ("log_ok", "bool"), ("corrupt", "bool")], 4, [],
+  ["IncomingToken::from_header", "Token::encode", "Token::decode"], "native replay body of E2 query e2_token_from_header")
